@@ -65,6 +65,8 @@ type WireSpec struct {
 	Assume    []string
 	// ForceOpts generates every package of this part under these options
 	ForceOpts []string
+	replaySchema *wireSchema
+	replayCase   *wireCase
 	// CaseFilter drops cases before execution (nil keeps all)
 	CaseFilter func(s *wireSchema, c *wireCase) bool
 	// Nontrivial says whether a case counts as non-trivial for the evidence
@@ -176,6 +178,10 @@ func runWirePart(c *Ctx, work string, sp *WireSpec) (Coverage, int, error) {
 	bySid := map[int]int{}
 	var mu sync.Mutex
 	var parseErr error
+	if sp.replaySchema != nil {
+		run.schemas = []*wireSchema{sp.replaySchema}
+		run.cases = []*wireCase{sp.replayCase}
+	}
 	g := &tlc.Run{SpecDir: specDir, Scratch: filepath.Join(work, "gen"), Module: sp.GenModule,
 		Cfg: genCfg(consts, sp.GenInvs), Workers: 16, Timeout: 20 * time.Minute,
 		OnLine: func(tag, js string) {
@@ -198,7 +204,13 @@ func runWirePart(c *Ctx, work string, sp *WireSpec) (Coverage, int, error) {
 				run.cases = append(run.cases, cs)
 			}
 		}}
-	gr, err := g.Exec()
+	var gr *tlc.Result
+	var err error
+	if sp.replaySchema != nil {
+		gr = &tlc.Result{Distinct: 1, Generated: 1}
+	} else {
+		gr, err = g.Exec()
+	}
 	if err != nil {
 		return nil, 2, infra("case generation: %v", err)
 	}
@@ -645,6 +657,7 @@ func runWirePart(c *Ctx, work string, sp *WireSpec) (Coverage, int, error) {
 			c.Violation(fmt.Sprintf("%s [shape %s in %s, options %v]", v.Why, s.Tag, s.Ctx, cs.Opts), map[string]interface{}{
 				"kind": "wire", "op": sp.Op, "judge": sp.JudgeProp, "schema_text": plans[cs.Pid].Text, "defs": s.Defs, "opts": cs.Opts,
 				"root": cs.Root, "v": cs.V, "ref": cs.Enc, "inputs": cs.Inputs, "errs": sp.Errs, "event": ev,
+				"wirecase": cs, "wireschema": s, "gen_module": sp.GenModule, "force_opts": sp.ForceOpts,
 			})
 		}
 	}
@@ -728,4 +741,39 @@ func cidOf(line []byte) int {
 		n = n*10 + int(ch-'0')
 	}
 	return n
+}
+
+// ReplayWire re-executes the single case of a wire replay file against the current tree and judges it again.
+func ReplayWire(c *Ctx, raw map[string]json.RawMessage) (int, error) {
+	var cs wireCase
+	var sch wireSchema
+	var op, judge, genModule string
+	var errs, forceOpts []string
+	if err := json.Unmarshal(raw["wirecase"], &cs); err != nil {
+		return 2, infra("replay file has no wire case: %v", err)
+	}
+	if err := json.Unmarshal(raw["wireschema"], &sch); err != nil {
+		return 2, infra("replay file has no schema: %v", err)
+	}
+	_ = json.Unmarshal(raw["op"], &op)
+	_ = json.Unmarshal(raw["judge"], &judge)
+	_ = json.Unmarshal(raw["errs"], &errs)
+	_ = json.Unmarshal(raw["gen_module"], &genModule)
+	_ = json.Unmarshal(raw["force_opts"], &forceOpts)
+	sp := &WireSpec{GenModule: genModule, Op: op, Errs: errs, JudgeProp: judge, DevProps: []string{c.Prop}, Level: "model_checking",
+		Rule: "replay of one recorded case", replaySchema: &sch, replayCase: &cs, ForceOpts: forceOpts}
+	if op == "decref" || op == "rfault" && genModule == "Gen_Evolve" {
+		sp.DevProps = []string{c.Prop, "C04"}
+	}
+	cov, code, err := runWirePart(c, c.Work, sp)
+	if err != nil || code == 2 {
+		return code, err
+	}
+	_ = cov
+	if c.violations > 0 {
+		fmt.Printf("replay: the case still violates %s\n", c.Prop)
+		return 1, nil
+	}
+	fmt.Printf("replay: the case no longer violates %s on the current tree\n", c.Prop)
+	return 0, nil
 }
